@@ -171,3 +171,17 @@ impl<I: Iterator> Iterator for NoHint<I> {
         self.0.next()
     }
 }
+
+/// A source that truthfully carries the `FusedIterator` marker (std's `Fuse<I>` is then a
+/// pass-through): wraps a *fused* script.
+pub struct MarkedFused<I>(pub I);
+impl<I: Iterator> Iterator for MarkedFused<I> {
+    type Item = I::Item;
+    fn next(&mut self) -> Option<I::Item> {
+        self.0.next()
+    }
+    fn size_hint(&self) -> (usize, Option<usize>) {
+        self.0.size_hint()
+    }
+}
+impl<I: Iterator> core::iter::FusedIterator for MarkedFused<I> {}
